@@ -48,8 +48,9 @@ prop("C19", "fault_enumeration",
      "padding the datagram to the announced size (the hidden request has no reserved bytes: bytes 2..3 frame the message); two "
      "thirds of these carry a time stamp inside the window. Every datagram that leaves the "
      "server's address is attributed to the step before it. Oracle: nothing leaves the server except at most one "
-     "ServerResponseHidden, to the source, per valid request that is delivered within HiddenModeTimestampExpiration (5 s) of its "
-     "time stamp; delays >= 6 s and clocks >= 6 s ahead must stay unanswered; a chosen stamp is read as the unsigned 64-bit number of "
+     "ServerResponseHidden, to the source, per valid request that is delivered within the documented freshness window of 5 s "
+     "(a constant of the harness, NOT read from the code's HiddenModeTimestampExpiration, so the oracle does not move with the "
+     "code under test) of its time stamp; delays >= 6 s and clocks >= 6 s ahead must stay unanswered; a chosen stamp is read as the unsigned 64-bit number of "
      "seconds it is on the wire: at least 6 s behind or at least 6 s ahead of the server's clock at the presentation (first or "
      "repeated) must stay unanswered, 0..5 s behind may be answered once; a request whose header announces a version other than the "
      "protocol's (handshake_spec.md: type | Protocol Version | Certs Len; 'Only one version is supported') or whose length field does "
@@ -66,6 +67,10 @@ prop("C19", "fault_enumeration",
       "the cookie key's period is taken from handshake_spec.md ('K_r is a key that is rotated every N minutes') with N = 2 as in "
       "Server.Serve: a cookie is 'minted under the current key' only until the next multiple of 120 s of serving time; a server that "
       "keeps a key beyond its period and still accepts its cookies is reported (cookie-accepted:rotation-overdue)",
+      "the hidden-mode freshness window is 5 SECONDS, taken from the documentation (the comment of HiddenModeTimestampExpiration in "
+      "transport/common.go: '5 sec'; handshake_spec.md: the time stamp is time.Now().Unix(), i.e. whole seconds) and defined in the "
+      "harness as its own constant; the code's constant is not referenced, so a change of its value, unit or type is judged "
+      "against the documented 5 s (with the one-second margin on either side) instead of shifting the oracle",
       "future-stamped requests less than 6 s ahead and delays between 5 s and 6 s are not judged (clock-skew tolerance / second "
       "granularity are not fixed by the statement)",
       "while the process-killing findings panic:transport.(*Server).readPQClientRequestHidden:slice-bounds (any hidden-typed "
